@@ -156,7 +156,7 @@ func applyInt32Constraints(constraints *validate.FieldRules, schema *base.Schema
 	// Greater than (exclusive minimum)
 	if int32Constraints.HasGt() {
 		minValue := float64(int32Constraints.GetGt())
-		schema.ExclusiveMinimum = &base.DynamicValue[bool, float64]{B: minValue}
+		schema.ExclusiveMinimum = &base.DynamicValue[bool, float64]{N: 1, B: minValue}
 	}
 
 	// Less than or equal (maximum)
@@ -168,7 +168,7 @@ func applyInt32Constraints(constraints *validate.FieldRules, schema *base.Schema
 	// Less than (exclusive maximum)
 	if int32Constraints.HasLt() {
 		maxValue := float64(int32Constraints.GetLt())
-		schema.ExclusiveMaximum = &base.DynamicValue[bool, float64]{B: maxValue}
+		schema.ExclusiveMaximum = &base.DynamicValue[bool, float64]{N: 1, B: maxValue}
 	}
 
 	// Const value
@@ -207,7 +207,7 @@ func applyInt64Constraints(constraints *validate.FieldRules, schema *base.Schema
 	// Greater than (exclusive minimum)
 	if int64Constraints.HasGt() {
 		minValue := float64(int64Constraints.GetGt())
-		schema.ExclusiveMinimum = &base.DynamicValue[bool, float64]{B: minValue}
+		schema.ExclusiveMinimum = &base.DynamicValue[bool, float64]{N: 1, B: minValue}
 	}
 
 	// Less than or equal (maximum)
@@ -219,7 +219,7 @@ func applyInt64Constraints(constraints *validate.FieldRules, schema *base.Schema
 	// Less than (exclusive maximum)
 	if int64Constraints.HasLt() {
 		maxValue := float64(int64Constraints.GetLt())
-		schema.ExclusiveMaximum = &base.DynamicValue[bool, float64]{B: maxValue}
+		schema.ExclusiveMaximum = &base.DynamicValue[bool, float64]{N: 1, B: maxValue}
 	}
 
 	// Const value
@@ -258,7 +258,7 @@ func applyFloatConstraints(constraints *validate.FieldRules, schema *base.Schema
 	// Greater than (exclusive minimum)
 	if floatConstraints.HasGt() {
 		minValue := float32Bound(floatConstraints.GetGt())
-		schema.ExclusiveMinimum = &base.DynamicValue[bool, float64]{B: minValue}
+		schema.ExclusiveMinimum = &base.DynamicValue[bool, float64]{N: 1, B: minValue}
 	}
 
 	// Less than or equal (maximum)
@@ -270,7 +270,7 @@ func applyFloatConstraints(constraints *validate.FieldRules, schema *base.Schema
 	// Less than (exclusive maximum)
 	if floatConstraints.HasLt() {
 		maxValue := float32Bound(floatConstraints.GetLt())
-		schema.ExclusiveMaximum = &base.DynamicValue[bool, float64]{B: maxValue}
+		schema.ExclusiveMaximum = &base.DynamicValue[bool, float64]{N: 1, B: maxValue}
 	}
 
 	// Const value
@@ -309,7 +309,7 @@ func applyDoubleConstraints(constraints *validate.FieldRules, schema *base.Schem
 	// Greater than (exclusive minimum)
 	if doubleConstraints.HasGt() {
 		minValue := doubleConstraints.GetGt()
-		schema.ExclusiveMinimum = &base.DynamicValue[bool, float64]{B: minValue}
+		schema.ExclusiveMinimum = &base.DynamicValue[bool, float64]{N: 1, B: minValue}
 	}
 
 	// Less than or equal (maximum)
@@ -321,7 +321,7 @@ func applyDoubleConstraints(constraints *validate.FieldRules, schema *base.Schem
 	// Less than (exclusive maximum)
 	if doubleConstraints.HasLt() {
 		maxValue := doubleConstraints.GetLt()
-		schema.ExclusiveMaximum = &base.DynamicValue[bool, float64]{B: maxValue}
+		schema.ExclusiveMaximum = &base.DynamicValue[bool, float64]{N: 1, B: maxValue}
 	}
 
 	// Const value
